@@ -43,8 +43,9 @@ RULE = ("random Bayesian networks (1-7 nodes, families with up to 4 parents, CPD
         "(kind, graph, factors, options)")
 TRUSTED_BASE = [
     "networkx Graph storage, nx.find_cliques (cross-checked against the model's brute-force maximal cliques), "
-    "nx.minimum_spanning_tree (its output is validated by the verified tree/RIP checkers), nx.is_chordal "
-    "(cross-checked against the verified PEO-search checker)",
+    "nx.minimum_spanning_tree (its output is validated by the verified tree/RIP checkers and by the proved "
+    "maximum-weight certificate weight >= wstar), nx.find_cliques (its listing must pass the verified "
+    "max_cliques_chk), nx.is_chordal (cross-checked against the verified PEO-search checker)",
     "numpy/torch einsum inside DiscreteFactor.product (C04 covers it); values are dyadic rationals, exact in float64",
     "the elimination order pgmpy chose is observed by recording nx.Graph.remove_node calls",
     "Fulkerson-Gross: a graph is chordal iff it has a perfect elimination ordering (Spec.chordal is the PEO form)",
@@ -741,10 +742,24 @@ def check_jt(P, drv, jt, order, ids_nodes, ids_edges, mfactors, cards, idx, stat
             any(len(set(c)) != len(c) for c in cl):
         P.add("impl!=model:jt-cliques", {"what": what, "impl": sorted(map(sorted, cl)), "model": sorted(map(sorted, mc))})
         return
+    # the verified listing checker on nx.find_cliques' own listing (hypothesis of C14_junction_tree_construction)
+    if not drv.call("c14_mcchk", [tn, te, cl]):
+        P.add("impl!=spec:jt-cliques-not-the-maximal-cliques", {"what": what, "impl": cl})
+        return
     pos = {c: i for i, c in enumerate(jn)}
     tedges = [[pos[a], pos[b]] for a, b in jt.edges()]
     scopes = [f[0] for f in mfactors]
     tree, cover, rip = drv.call("c14_jtchk", [cl, tedges, scopes])
+    # maximum-weight certificate for nx.minimum_spanning_tree's tree: weight reaches the bound wstar
+    # (C14_max_weight_certificate); with the two checks above the theorems give RIP without rip_chk
+    wt, ws = drv.call("c14_jtweight", [cl, tedges])
+    if tree and wt < ws:
+        P.add("impl!=spec:jt-not-maximum-weight", {"what": what, "weight": wt, "bound": ws, "rip": rip,
+                                                   "cliques": cl, "edges": tedges})
+        return
+    if tree and wt >= ws and not rip:
+        P.add("model:rip-theorem-contradicted", {"what": what, "cliques": cl, "edges": tedges})
+        return
     tags.append("jt cliques=%d" % len(cl))
     if not (tree and cover and rip):
         P.add("impl!=spec:jt-structure", {"what": what, "tree": tree, "cover": cover, "rip": rip,
